@@ -106,13 +106,11 @@ func (r *MMapReader) SeekNext(offset uint64) (uint64, []byte, error) {
 			trialOffset := uint64(next) + uint64(i)
 			record, err := r.ReadNextAt(trialOffset)
 			if err != nil {
-				if errors.Is(err, HeaderChecksumMismatchErr) || errors.Is(err, MagicNumberMismatchErr) || errors.Is(err, io.EOF) {
-					// try to seek again, the record couldn't be read fully
-					i = ix
-					continue
-				}
-
-				return 0, nil, err
+				// try to seek again, the record couldn't be read fully. The marker bytes may be part of a payload, in which
+				// case the bytes that follow are arbitrary and the trial read can fail in any way a header parse can fail
+				// (checksum or magic number mismatch, overflowing or cut varints, short reads), none of that is fatal here.
+				i = ix
+				continue
 			} else {
 				return trialOffset, record, nil
 			}
